@@ -234,6 +234,7 @@ if __name__ == "__main__":
                 if k == "enum": print('\t"%s": reflect.TypeOf(vt.%s(0)),' % (n, n))
                 elif k == "typeref": print('\t"%s": reflect.TypeOf(vt.%s(%s)),' % (n, n, '""' if d["type"] == "string" else "0"))
                 else: print('\t"%s": reflect.TypeOf(vt.%s{}),' % (n, n))
+                if k == "record": print('\t"%s_PartialUpdate": reflect.TypeOf(vt.%s_PartialUpdate{}),' % (n, n))
         print("}")
         print("\n// constructors of default instances (only generated for records that declare a default themselves)\nvar defaultCtors = map[string]func() any{")
         for t in TYPES:
